@@ -265,6 +265,65 @@ Section Api.
 
   Definition run (h : list op) : list outcome := fst (run_from init h).
   Definition final_store (h : list op) : list nsd := store (snd (run_from init h)).
+
+  (** ** The domain of histories on which the code as it is answers every call
+      with [pure] of that call's own arguments (hypothesis of
+      [C18_history_partial]).  Derived from the state machine above:
+      - (D0) every call names an existing Shaper;
+      - (D1) no dictionary object is handed to two constructors ([DShared]), and
+             the constructor does not need the random prefix ([prio_free]);
+      - (D2) every [shex_graph] call on one Shaper has the threshold of the
+             first one ([_shape_list] is computed once);
+      - (D3) no ShExC call after a SHACL call on the same Shaper (the SHACL
+             serialiser leaves its namespace in the dictionary);
+      - (D4) with a mutating examples_mode, at most one ShExC call per Shaper
+             (the example comments are appended to the memoised statements). *)
+  Variable thr_eqb : thr -> thr -> bool.
+
+  Record track := mkTrack {
+    tr_thr : option thr;     (* threshold of the first shex_graph call *)
+    tr_shacl : bool;         (* a SHACL call has been made *)
+    tr_shexc : nat;          (* number of ShExC calls made *)
+    tr_mut : bool            (* examples_mode mutates the statements *)
+  }.
+
+  Definition dict_arg_ok (da : dict_arg) : bool :=
+    match da with
+    | DNone => prio_free []
+    | DNew d => prio_free d
+    | DShared _ => false
+    end.
+
+  Definition call_ok (tr : track) (f : fmt) (t : thr) : bool :=
+    match tr_thr tr with None => true | Some t0 => thr_eqb t0 t end &&
+    match f with
+    | ShExC => negb (tr_shacl tr) && (negb (tr_mut tr) || Nat.eqb (tr_shexc tr) 0)
+    | SHACL => true
+    end.
+
+  Definition track_call (tr : track) (f : fmt) (t : thr) : track :=
+    mkTrack (match tr_thr tr with None => Some t | Some t0 => Some t0 end)
+            (match f with SHACL => true | ShExC => tr_shacl tr end)
+            (match f with ShExC => S (tr_shexc tr) | SHACL => tr_shexc tr end)
+            (tr_mut tr).
+
+  Fixpoint dom_from (trs : list track) (h : list op) : bool :=
+    match h with
+    | [] => true
+    | New a da :: h' => dict_arg_ok da && dom_from (trs ++ [mkTrack None false 0 (mutating a)]) h'
+    | Shex i f k t :: h' =>
+      match nth_error trs i with
+      | None => false
+      | Some tr => call_ok tr f t && dom_from (set_nth i (track_call tr f t) trs) h'
+      end
+    | Profile i k :: h' =>
+      match nth_error trs i with
+      | None => false
+      | Some _ => dom_from trs h'
+      end
+    end.
+
+  Definition C18_dom (h : list op) : bool := dom_from [] h.
 End Api.
 
 Arguments mkShaper {args tcd prof shapes}.
@@ -272,3 +331,16 @@ Arguments mkState {args tcd prof shapes}.
 Arguments New {args thr}.
 Arguments Shex {args thr}.
 Arguments Profile {args thr}.
+Arguments sh_args {args tcd prof shapes}.
+Arguments sh_ns {args tcd prof shapes}.
+Arguments sh_tcd {args tcd prof shapes}.
+Arguments sh_prof {args tcd prof shapes}.
+Arguments sh_shapes {args tcd prof shapes}.
+Arguments store {args tcd prof shapes}.
+Arguments shapers {args tcd prof shapes}.
+Arguments dead {args tcd prof shapes}.
+Arguments mkTrack {thr}.
+Arguments tr_thr {thr}.
+Arguments tr_shacl {thr}.
+Arguments tr_shexc {thr}.
+Arguments tr_mut {thr}.
